@@ -161,6 +161,9 @@ def padding(index: RepoIndex, rep, rule: str, sub: Subgrid) -> None:
     f = sub.func
     fl = f.node.lineno
     G = 'gym_gridverse/grid.py'
+    for msg in getattr(sub, 'mismatches', []):
+        rep.violation(rule, G, 'Grid.subgrid', fl, sub.spelling[:80],
+                      f'Grid.subgrid ({sub.spelling[:60]}) is not the documented slice: {msg}')
     cell_r, cell_c = sub.cell_index()
     rep.check(src(sub.inside_val).startswith('self.objects[') or src(sub.inside_val).startswith('self['),
               rule, G, 'Grid.subgrid', fl, src(sub.inside_val),
